@@ -751,9 +751,12 @@ where
         }
     }
 
-    let mut outer = Outer::default();
-    let mut tokens: VecDeque<_> = Some(tree.as_token()).into_iter().collect();
-    while let Some(token) = tokens.pop_front() {
+    // The outer tokens of a branch are those of its ancestors: they are queued with the branch
+    // rather than shared between unrelated branches.
+    let mut tokens: VecDeque<_> = Some((Outer::default(), tree.as_token()))
+        .into_iter()
+        .collect();
+    while let Some((parent, token)) = tokens.pop_front() {
         use BranchKind::{Alternation, Repetition};
 
         for (left, token, right) in token
@@ -764,7 +767,7 @@ where
         {
             match token.as_branch() {
                 Some(Alternation(ref alternation)) => {
-                    outer = outer.or(left, right);
+                    let outer = parent.or(left, right);
                     let diagnose = diagnose(tree.expression(), token, "in this alternation");
                     for token in alternation.tokens() {
                         let concatenation = token.concatenation();
@@ -773,10 +776,10 @@ where
                             check_alternation(terminals, outer).map_err(diagnose)?;
                         }
                     }
-                    tokens.extend(alternation.tokens());
+                    tokens.extend(alternation.tokens().iter().map(|token| (outer, token)));
                 },
                 Some(Repetition(ref repetition)) => {
-                    outer = outer.or(left, right);
+                    let outer = parent.or(left, right);
                     let diagnose = diagnose(tree.expression(), token, "in this repetition");
                     let token = repetition.token();
                     let concatenation = token.concatenation();
@@ -785,7 +788,7 @@ where
                         check_repetition(terminals, outer, repetition.variance())
                             .map_err(diagnose)?;
                     }
-                    tokens.push_back(token);
+                    tokens.push_back((outer, token));
                 },
                 _ => {},
             }
